@@ -188,7 +188,7 @@ def r6(ctx):
         n += 1
         l = loops[0]
         rv = l.target.id
-        rets = [r_ for r_ in walk_no_nested(l) if isinstance(r_, ast.Return)]
+        rets = [r_ for b_ in l.body for r_ in walk_no_nested(b_) if isinstance(r_, ast.Return)]
         allowed = {f'{rv} is not None', f'{rv}.reference_name is not None', f'{rv}.reference_start is not None'}
         extra = []
         for r_ in rets:
